@@ -31,7 +31,7 @@ LEVEL_NOTE = ('A window end that coincides with a tabulated wavelength may inclu
 RULE = ("cases: package configurations; executions: one call per (chunk size, window), one evaluation per file checked; a state is (configuration, window, chunk); non-trivial = distinct "
         "(configuration, window, chunk) whose window holds at least one wavelength and whose chunk size is smaller than the number of wavelengths in the window or divides it")
 ASSUMPTIONS = ["all SED files of a package share one wavelength grid", "window ends exactly on a tabulated wavelength are ambiguous"]
-REQUIRED_CLASSES = ['seds-regenerated-then-convolved-with-overwrite', 'chunk-divides-range', 'chunk-does-not-divide-range', 'chunk==1', 'single-wavelength-window', 'empty-window', 'default-window', 'window-end-on-wavelength',
+REQUIRED_CLASSES = ['one-sided-window', 'seds-regenerated-then-convolved-with-overwrite', 'chunk-divides-range', 'chunk-does-not-divide-range', 'chunk==1', 'single-wavelength-window', 'empty-window', 'default-window', 'window-end-on-wavelength',
                     'permuted-parameter-table', 'multi-aperture', 'sed-files-wav-ascending', 'seds-in-subdirs-and-gz', 'seds-stored-in-erg/cm2/s', 'convolved-again-after-listing', 'cube-nearest', 'cube-midway', 'cube-outside', 'cube-wavelength-in-other-unit']
 TIMEOUT = {'quick': 600, 'thorough': 3000}
 
@@ -94,6 +94,9 @@ def run_case(ctx, case, rec, d):
     w_asc = 1.0 * 1.5 ** np.arange(n_wav)
     wav_file = w_asc if case['sord'] == 'wav-asc' else w_asc[::-1]
     names = ['mono_%s' % 'dbaec'[i] for i in range(n_models)]
+    if n_models >= 3:
+        names[2] = 'mono_a_name_of_thirty_chars_' + names[2][-2:]          # exactly the 30 characters of the name column
+        assert len(names[2]) == 30
     perm = {'identity': list(range(n_models)), 'reversed': list(range(n_models))[::-1], 'rotated': [(i + 1) % n_models for i in range(n_models)]}[case['perm']]
     ap = None if n_ap == 1 else 100.0 * 10.0 ** np.arange(n_ap)
     cell = lambda m, a, wi: 1000.0 * (m + 1) + 10.0 * (a + 1) + (wi + 1) / 64.0      # wi = index in w_asc
@@ -107,7 +110,7 @@ def run_case(ctx, case, rec, d):
         if case.get('funit', 'mJy') != 'mJy':
             # stored as nu*F_nu in erg/cm^2/s: the monochromatic 'convolution' must hand back F_nu in mJy all the same
             fl = fl * 1e-26 * (pkgwriter.C_M_S / (np.asarray(wav_file) * 1e-6))[None, :]
-        pkgwriter.write_sed_file(md, nm, wav_file, fl, fl / 8.0, unit='mJy' if case.get('funit', 'mJy') == 'mJy' else 'erg s-1 cm-2', apertures_au=ap, subdir=(nm[:6] if lay != 'flat' and m % 2 else None), gz=(lay != 'flat' and m != 1))
+        pkgwriter.write_sed_file(md, nm, wav_file, fl, fl / 8.0 * (1e-3 if (m % 2 and case.get('funit', 'mJy') == 'mJy') else 1.0), err_unit=('Jy' if (m % 2 and case.get('funit', 'mJy') == 'mJy') else None), unit='mJy' if case.get('funit', 'mJy') == 'mJy' else 'erg s-1 cm-2', apertures_au=ap, subdir=(nm[:6] if lay != 'flat' and m % 2 else None), gz=(lay != 'flat' and m != 1))
     table_order = [names[i] for i in perm]
     if perm != sorted(perm):
         rec.cls('permuted-parameter-table')
@@ -122,6 +125,8 @@ def run_case(ctx, case, rec, d):
     cfg = (n_wav, n_ap, n_models, case['perm'], case['sord'], case.get('layout', 'flat'), case.get('funit', 'mJy'))
     positions = _positions(w_asc)
     windows = [(None, None)] + [(positions[i], positions[j]) for i in range(len(positions)) for j in range(i, len(positions))]
+    # one-sided windows: only one of the two limits is given, the other keeps its default
+    windows += [(positions[i], 'default') for i in range(len(positions))] + [('default', positions[j]) for j in range(len(positions))]
     windows = windows[case['wpart'][0]::case['wpart'][1]]
     chunks = [None] + list(range(1, n_wav + 1))
     sampled = False
@@ -130,6 +135,12 @@ def run_case(ctx, case, rec, d):
             lo, hi = -np.inf, np.inf
             kw = {}
             rec.cls('default-window')
+        elif 'default' in win:
+            lo = -np.inf if win[0] == 'default' else win[0][1]
+            hi = np.inf if win[1] == 'default' else win[1][1]
+            kw = {'wav_max': hi * u.micron} if win[0] == 'default' else {'wav_min': lo * u.micron}
+            rec.cls('one-sided-window')
+            win = (('default', None) if win[0] == 'default' else win[0], ('default', None) if win[1] == 'default' else win[1])
         else:
             lo, hi = win[0][1], win[1][1]
             kw = {'wav_min': lo * u.micron, 'wav_max': hi * u.micron}
@@ -278,7 +289,7 @@ def run_case(ctx, case, rec, d):
                     if case.get('funit', 'mJy') != 'mJy':
                         fl = fl * 1e-26 * (pkgwriter.C_M_S / (np.asarray(wav_file) * 1e-6))[None, :]
                     fl = fl * factor
-                    pkgwriter.write_sed_file(md, nm, wav_file, fl, fl / 8.0, unit='mJy' if case.get('funit', 'mJy') == 'mJy' else 'erg s-1 cm-2', apertures_au=ap, subdir=(nm[:6] if lay != 'flat' and m % 2 else None), gz=(lay != 'flat' and m != 1))
+                    pkgwriter.write_sed_file(md, nm, wav_file, fl, fl / 8.0 * (1e-3 if (m % 2 and case.get('funit', 'mJy') == 'mJy') else 1.0), err_unit=('Jy' if (m % 2 and case.get('funit', 'mJy') == 'mJy') else None), unit='mJy' if case.get('funit', 'mJy') == 'mJy' else 'erg s-1 cm-2', apertures_au=ap, subdir=(nm[:6] if lay != 'flat' and m % 2 else None), gz=(lay != 'flat' and m != 1))
                 convolve_model_dir_monochromatic(md, True, 8)
                 rec.trans()
                 rec.cls('seds-regenerated-then-convolved-with-overwrite')
